@@ -72,7 +72,7 @@ def mask_patterns(rng, n):
 
 def lattice(ctx):
     rng = ctx.rng
-    ns = list(range(0, 20)) + [31, 32, 33, 62, 63, 64, 65, 66, 127, 128, 129, 255, 256, 257, 1023, 1024, 1025,
+    ns = list(range(0, 20)) + [31, 32, 33, 62, 63, 64, 65, 66, 127, 128, 129, 255, 256, 257, 503, 504, 505, 1023, 1024, 1025,
                                8190, 8191, 8192, 8193, 8194]
     big = [2 ** 14 - 1, 2 ** 14, 2 ** 20 - 1, 2 ** 20, 2 ** 21 + 5, 2 ** 27 - 1, 2 ** 27, 2 ** 34, 2 ** 41 - 1, 2 ** 41,
            2 ** 48 + 3, 2 ** 55, 2 ** 62 - 1]
@@ -111,9 +111,10 @@ def run(ctx, pq):
             if n <= 2 ** 14:
                 pats = mask_patterns(rng, n)
                 if ctx.quick() and n > 1025:
-                    # the extracted writer model is quadratic in the mask length (1 s at 8192): quick tier = the alternating and the
-                    # random pattern around 8192 and one random pattern at 2^14; every pattern in the thorough tier
-                    pats = pats[-2:] if n < 2 ** 14 else pats[-1:]
+                    # the extracted writer model is quadratic in the mask length (1 s at 8192).  For the nulls branch 8192 is no framing
+                    # boundary (its header counts mask BYTES: 1 -> 2 varint bytes at 504 rows, 2 -> 3 at 65 528): quick tier = one random
+                    # pattern at 8191 / 8192 / 8193; 8190, 8194, 2^14 and every pattern in the thorough tier
+                    pats = pats[-1:] if n in (8191, 8192, 8193) else []
                 for m in pats:
                     vals = np.arange(n, dtype="float64")
                     vals[[i for i, b in enumerate(m) if not b]] = np.nan
